@@ -1150,14 +1150,14 @@ func c08r3(c *core.Ctx) {
 			if src == "" {
 				return true
 			}
-			sets := map[string]bool{}
+			sets := map[string][]ast.Node{}
 			flags := map[string]bool{}
 			ast.Inspect(lbody, func(y ast.Node) bool {
 				switch z := y.(type) {
 				case *ast.CallExpr:
 					if recv := isSetOn(z); recv != nil {
 						if k := fieldOfSel(recv); maskFlag[k] != "" {
-							sets[k] = true
+							sets[k] = append(sets[k], z)
 						}
 					}
 				case *ast.AssignStmt:
@@ -1171,12 +1171,20 @@ func c08r3(c *core.Ctx) {
 				}
 				return true
 			})
-			for mk := range sets {
+			// one fact per mask and place: the loop itself when it folds into one mask, the single Set calls when the
+			// loop body routes by event (a switch inside the loop instead of a loop inside each case)
+			for mk, calls := range sets {
 				fl := ""
 				if flags[maskFlag[mk]] {
 					fl = maskFlag[mk]
 				}
-				facts = append(facts, routeFact{src, mk, fl, x})
+				if len(sets) == 1 {
+					facts = append(facts, routeFact{src, mk, fl, x})
+					continue
+				}
+				for _, call := range calls {
+					facts = append(facts, routeFact{src, mk, fl, call})
+				}
 			}
 			return true
 		}
